@@ -58,8 +58,15 @@ def follow_ups(draw, units_a, units_r):
     out = []
     for _ in range(n):
         target = draw(st.sampled_from(["r", "a", "b"]))
-        kind = draw(st.sampled_from(["to", "to", "rebase", "abse", "rele"]))
-        if kind == "to":
+        kind = draw(st.sampled_from(["to", "to", "rebase", "abse", "rele", "toq", "peek"]))
+        if kind == "toq":
+            # converted into the units of another object, handed over as a Quantity: that object is only read
+            out.append([target, "toq", draw(st.sampled_from([t for t in ("r", "a", "b") if t != target]))])
+        elif kind == "peek":
+            # a read-only query whose answer the caller then overwrites: the quantity keeps its numbers
+            pool = units_r if target == "r" else units_a
+            out.append([target, "peek", draw(st.sampled_from(pool)) if pool else None])
+        elif kind == "to":
             pool = units_r if target == "r" else units_a
             out.append([target, "to", draw(st.sampled_from(pool)) if pool else None])
         elif kind == "abse":
@@ -310,6 +317,22 @@ def _apply_follow(v, follow, objs, names, text):
                 if arg is None:
                     continue
                 X.to(arg)
+            elif kind == "toq":
+                if not isinstance(objs.get(arg), Quantity):
+                    continue
+                X.to(objs[arg])
+            elif kind == "peek":
+                if arg is None:
+                    continue
+                first = X.value(arg)
+                keep = copy.deepcopy(first)
+                if isinstance(first, np.ndarray) and first.flags.writeable:
+                    first[...] = 0
+                again = X.value(arg)
+                if not _same(_canon_val(keep), _canon_val(copy.deepcopy(again))) or snap(X) != mine and diff(mine, X):
+                    return v.fail("query-not-read-only", f"{text}; then {names[target]}.value({arg!r}) = {keep!r}, the caller "
+                                                         f"zeroes that array, the same query now gives {again!r} "
+                                                         f"({diff(mine, X) or 'quantity itself unchanged'})")
             elif kind == "rebase":
                 X.rebase()
             elif kind == "abse":
